@@ -250,6 +250,15 @@ fn base_document(rng: &mut Rng) -> String {
             match rng.below(4) {
                 0 => d.push_str(&format!("    <edge source=\"n{}{t}\" target=\"n{}{t}\"/>\n", u, v, t = tag)),
                 1 => d.push_str(&format!("    <edge id=\"e\" source=\"n{}{t}\" target=\"n{}{t}\"></edge>\n", u, v, t = tag)),
+                2 if rng.chance(35) => {
+                    // a weight text that is not a number, of every length up to ~50 bytes, with a multi-byte character at
+                    // an arbitrary byte offset (error paths that quote or slice document text)
+                    let mut w = String::new();
+                    for _ in 0..rng.range(0, 40) { w.push(*rng.pick(&['a', 'z', '0', '7', '.', ',', '-', 'e', 'x', '_'])); }
+                    w.push(*rng.pick(&['é', '€', '日', '😀', 'ß']));
+                    for _ in 0..rng.range(0, 12) { w.push(*rng.pick(&['1', 'q', '.', '€'])); }
+                    d.push_str(&format!("    <edge source=\"n{}{t}\" target=\"n{}{t}\"><data key=\"{}\">{}</data></edge>\n", u, v, wkey, w, t = tag));
+                }
                 _ => d.push_str(&format!("    <edge source=\"n{}{t}\" target=\"n{}{t}\">\n      <data key=\"{}\">{}</data>\n    </edge>\n", u, v, wkey, *rng.pick(&["1.5", "2", "0.25", "1e3", "-4", "inf"]), t = tag)),
             }
         }
